@@ -29,8 +29,13 @@ class _Canon(ast.NodeTransformer):
         return ast.copy_location(ast.Name(id=nm, ctx=node.ctx), node)
 
 
+def _full(node):
+    """Whole source of a node (compound statements with their bodies), one line."""
+    return ' '.join(ast.unparse(node).split())
+
+
 def canon(node):
-    return norm(ast.fix_missing_locations(_Canon().visit(copy.deepcopy(node))))
+    return _full(ast.fix_missing_locations(_Canon().visit(copy.deepcopy(node))))
 
 
 class _Alpha(ast.NodeTransformer):
@@ -45,7 +50,7 @@ class _Alpha(ast.NodeTransformer):
 
 def shape(nodes):
     a = _Alpha()
-    return tuple(norm(ast.fix_missing_locations(a.visit(copy.deepcopy(n)))) for n in nodes)
+    return tuple(_full(ast.fix_missing_locations(a.visit(copy.deepcopy(n)))) for n in nodes)
 
 
 def _all_functions(fn):
